@@ -37,6 +37,7 @@ type Node struct {
 	Pub   []byte
 	Chain uint64
 	Net   uint64
+	Log   *RecLog // warnings and errors the node logged (teardown reasons)
 }
 
 // NewNode creates a p2p module with the idx-th deterministic BLS key, its peer book in dir.
@@ -53,11 +54,8 @@ func NewNodeWith(dir string, idx int, chain uint64, adjust func(*lib.Config)) *N
 		adjust(&cfg)
 	}
 	key := BLSKey(idx)
-	var log lib.LoggerI = lib.NewNullLogger()
-	if os.Getenv("P2PSIM_LOG") != "" {
-		log = lib.NewDefaultLogger()
-	}
-	return &Node{P2P: p2p.New(key, 100, nil, cfg, log), Key: key, Pub: key.PublicKey().Bytes(), Chain: chain, Net: cfg.NetworkID}
+	log := newRecLog()
+	return &Node{P2P: p2p.New(key, 100, nil, cfg, log), Key: key, Pub: key.PublicKey().Bytes(), Chain: chain, Net: cfg.NetworkID, Log: log}
 }
 
 // IsTimeoutErr reports whether an error text looks like an expired I/O deadline (the real handshake
@@ -86,8 +84,23 @@ func Join(a, b *Node) error {
 // JoinPipes is Join returning the two pipe ends (closing one simulates a network failure: both
 // connections are then torn down from inside their own receive services).
 func JoinPipes(a, b *Node) (net.Conn, net.Conn, error) {
-	c1, c2 := net.Pipe()
+	c1, c2 := newConnPair("a", "b")
 	return c1, c2, join(a, b, c1, c2)
+}
+
+// UseNetPipe selects net.Pipe (synchronous: every 1044-byte frame is a rendezvous of two goroutines,
+// and writes block until read) instead of the buffered in-memory conn for node connections. The
+// buffered conn is the default because on an oversubscribed machine the per-frame rendezvous makes a
+// 1 MB packet take seconds and trips the node's 3 s heartbeat timeout (a harness artefact). Scenarios
+// that need back-pressure (a peer that stops reading) use net.Pipe explicitly.
+var UseNetPipe = false
+
+func newConnPair(x, y string) (net.Conn, net.Conn) {
+	if UseNetPipe {
+		return net.Pipe()
+	}
+	l := NewBulkLink(x, y)
+	return l.X, l.Y
 }
 
 func join(a, b *Node, c1, c2 net.Conn) error {
@@ -196,7 +209,7 @@ const WriteBudget = 30 * time.Second
 
 // ConnectRaw joins a raw peer with the given identity to the node (inbound at the node).
 func ConnectRaw(n *Node, key crypto.PrivateKeyI) (*RawPeer, error) {
-	c1, c2 := net.Pipe()
+	c1, c2 := newConnPair("node", "raw")
 	errs := make(chan error, 1)
 	go func() {
 		errs <- toErr(n.AddPeer(c1, &lib.PeerInfo{Address: &lib.PeerAddress{NetAddress: "raw-peer", PeerMeta: &lib.PeerMeta{}}}, false, false))
